@@ -105,6 +105,138 @@ def render_expr(e):
     return rp.show(e)
 
 
+
+# ---- range obligations of dropped data-movement statements (C03 for the FFT adapters)
+def _len_of(base, aliases):
+    """spec expression for the length of a slice-valued expression, or None.  Per-channel storage `self.<f>[chan]` has the tracked
+    length `self.<f>`; the caller's buffers have the arbitrary lengths win_len / wout_len that validate_buffers bounded from below;
+    `x[a..b]` has length b - a; locals bound to such expressions are aliases."""
+    b = rp.strip_paren(base)
+    if b[0] == "unary" and b[1] in ("&", "&mut"):
+        return _len_of(b[2], aliases)
+    if b[0] == "path" and len(b[1]) == 1 and b[1][0] in aliases:
+        return aliases[b[1][0]]
+    if b[0] == "mcall" and b[2] in ("as_ref", "as_mut", "iter", "iter_mut") and not b[3]:
+        inner = rp.strip_paren(b[1])
+        if inner[0] == "index" and rp.show(inner[1]) in ("wave_in", "wave_out"):
+            return "win_len" if rp.show(inner[1]) == "wave_in" else "wout_len"
+        return _len_of(inner, aliases)
+    if b[0] == "index":
+        tgt, idx = rp.strip_paren(b[1]), rp.strip_paren(b[2])
+        if idx[0] == "range":
+            ln = _len_of(tgt, aliases)
+            if ln is None:
+                return None
+            lo = _spec(idx[1], aliases) if idx[1] is not None else "0"
+            hi = _spec(idx[2], aliases) if idx[2] is not None else ln
+            if lo is None or hi is None:
+                return None
+            if idx[3]:
+                hi = "(%s + 1)" % hi
+            return "(%s - %s)" % (hi, lo)
+        if tgt[0] == "field" and rp.show(tgt[1]) == "self" and tgt[2] in STORAGE:
+            return "self.%s" % tgt[2]
+    return None
+
+
+def _spec(e, aliases):
+    """integer expression -> Verus spec text (mathematical integers), or None"""
+    e = rp.strip_paren(e)
+    if e[0] == "mcall" and e[2] == "len" and not e[3]:
+        return _len_of(e[1], aliases)
+    if e[0] == "binary" and e[1] in ("+", "-", "*", "/"):
+        a, b = _spec(e[2], aliases), _spec(e[3], aliases)
+        if a is None or b is None:
+            return None
+        return "(%s %s %s)" % (a, e[1], b) if e[1] != "/" else "((%s) as int / (%s) as int)" % (a, b)
+    if e[0] == "num" and re.fullmatch(r"[0-9_]+", e[1]):
+        return e[1]
+    if e[0] == "field" and rp.show(e[1]) == "self":
+        return "self.%s" % e[2]
+    if e[0] == "path" and len(e[1]) == 1:
+        if e[1][0] in aliases and aliases[e[1][0]].startswith("="):
+            return aliases[e[1][0]][1:]
+        return e[1][0]
+    return None
+
+
+def range_obligations(st, known, aliases, unit=("self.fft_size_in", "self.fft_size_out")):
+    """asserts for every range-indexing / copy_within / chunks(n) in a dropped statement whose bounds are integer expressions of the
+    tracked state; (text, source) pairs.  Expressions over loop-local names are skipped (iterator adaptors cannot panic)."""
+    out = []
+    def ok_names(txt):
+        for nme in re.findall(r"[A-Za-z_][A-Za-z_0-9]*", re.sub(r"self\.[A-Za-z_0-9]+", "", txt)):
+            if nme not in known and nme not in ("win_len", "wout_len", "as", "int") and not nme.isdigit():
+                return False
+        return True
+    # local aliases introduced inside the statement (let input = wave_in[chan].as_ref();)
+    al = dict(aliases)
+    for n in rp.walk(st):
+        if n[0] == "let" and n[3] is not None and len(n[1][2]) == 1:
+            ln = _len_of(n[3], al)
+            if ln is not None:
+                al[n[1][2][0]] = ln
+    for n in rp.walk(st):
+        if n[0] == "index" and rp.strip_paren(n[2])[0] == "range":
+            r_ = rp.strip_paren(n[2])
+            ln = _len_of(n[1], al)
+            lo = _spec(r_[1], al) if r_[1] is not None else "0"
+            hi = _spec(r_[2], al) if r_[2] is not None else ln
+            if ln is None or lo is None or hi is None:
+                continue
+            if r_[3]:
+                hi = "(%s + 1)" % hi
+            cond = "0 <= %s && %s <= %s && %s <= %s" % (lo, lo, hi, hi, ln)
+            if ok_names(cond):
+                out.append((cond, rp.show(n)[:90]))
+        if n[0] == "mcall" and n[2] == "copy_within" and len(n[3]) == 2 and rp.strip_paren(n[3][0])[0] == "range":
+            r_ = rp.strip_paren(n[3][0])
+            ln = _len_of(n[1], al)
+            lo = _spec(r_[1], al) if r_[1] is not None else "0"
+            hi = _spec(r_[2], al) if r_[2] is not None else ln
+            d = _spec(n[3][1], al)
+            if ln is None or lo is None or hi is None or d is None:
+                continue
+            cond = "%s <= %s && %s <= %s && %s + (%s - %s) <= %s" % (lo, hi, hi, ln, d, hi, lo, ln)
+            if ok_names(cond):
+                out.append((cond, rp.show(n)[:90]))
+        if n[0] == "mcall" and n[2] in ("chunks", "chunks_mut", "chunks_exact", "chunks_exact_mut") and len(n[3]) == 1:
+            k_ = _spec(n[3][0], al)
+            if k_ is not None and ok_names(k_):
+                out.append(("%s > 0" % k_, rp.show(n)[:90]))
+        if n[0] == "mcall" and n[2] == "resample_unit" and len(n[3]) == 3:
+            # callee precondition (its body does `input_buf[0..fft_size_in].copy_from_slice(wave_in)` and `overlap.copy_from_slice(..)`):
+            # the input block has exactly fft_size_in frames, the overlap exactly fft_size_out
+            a0 = rp.strip_paren(n[3][0])
+            ov = _len_of(n[3][2], al)
+            if ov is not None and ok_names(ov):
+                out.append(("%s == %s" % (ov, unit[1]), "resample_unit(.., .., %s)" % rp.show(n[3][2])[:50]))
+            l0 = _len_of(a0, al)
+            if l0 is not None and ok_names(l0):
+                out.append(("%s == %s" % (l0, unit[0]), "resample_unit(%s, ..)" % rp.show(a0)[:60]))
+            elif a0[0] == "path" and len(a0[1]) == 1:
+                # a block produced by `X.chunks(F)[.take(N)]` in the enclosing for loop: every block must be a full one
+                for fl in rp.walk(st):
+                    if fl[0] == "for" and a0[1][0] in fl[1][2]:
+                        ch = [m_ for m_ in rp.walk(fl[2]) if m_[0] == "mcall" and m_[2] == "chunks" and len(m_[3]) == 1]
+                        tk = [m_ for m_ in rp.walk(fl[2]) if m_[0] == "mcall" and m_[2] == "take" and len(m_[3]) == 1 and rp.strip_paren(m_[1])[0] == "mcall" and rp.strip_paren(m_[1])[2] == "chunks"]
+                        if len(ch) == 1:
+                            F, X = _spec(ch[0][3][0], al), _len_of(ch[0][1], al)
+                            if F is not None and X is not None:
+                                if tk and rp.strip_paren(tk[0][1]) is ch[0] or (tk and rp.show(rp.strip_paren(tk[0][1])) == rp.show(ch[0])):
+                                    N = _spec(tk[0][3][0], al)
+                                    cond = "%s == %s && %s * %s <= %s" % (F, unit[0], N, F, X) if N is not None else None
+                                else:
+                                    cond = "%s == %s && (%s) as int %% (%s) as int == 0" % (F, unit[0], X, F)
+                                if cond and ok_names(cond):
+                                    out.append((cond, "resample_unit(<block of %s>, ..)" % rp.show(ch[0])[:70]))
+        if n[0] == "mcall" and n[2] == "copy_from_slice" and len(n[3]) == 1:
+            a, b = _len_of(n[1], al), _len_of(n[3][0], al)
+            if a is not None and b is not None and ok_names(a + b):
+                out.append(("%s == %s" % (a, b), rp.show(n)[:90]))
+    return out
+
+
 def slice_body(T, body, known0, sigs):
     """-> list of (key, rendered statement text). Raises Undecided on anything ambiguous."""
     tracked = set(TRACKED[T])
@@ -171,6 +303,17 @@ def slice_body(T, body, known0, sigs):
                 if kept is not None:
                     out.append(("if " + render_expr(rewrite(e[1])), kept))
                     continue
+            # validate_buffers(wave_in, wave_out, mask, channels, MIN_IN, MIN_OUT)?: past this point every active channel's slices have
+            # at least these lengths (its Kani contract, kani/verif_lib__c13.rs); the lengths themselves are arbitrary
+            vb = [n for n in rp.walk(st) if n[0] == "call" and rp.show(n[1]) == "validate_buffers" and len(n[2]) == 6]
+            if vb and is_int_expr(vb[0][2][4], known) and is_int_expr(vb[0][2][5], known):
+                out.append(("validate_buffers", "let win_len: usize = any_usize(); let wout_len: usize = any_usize(); assume(win_len >= %s && wout_len >= %s);" % (
+                    render_expr(rewrite(vb[0][2][4])), render_expr(rewrite(vb[0][2][5])))))
+                known |= {"win_len", "wout_len"}
+                continue
+            if "win_len" in known:
+                for (cond, srctxt) in range_obligations(st, known, {}, UNIT.get(T, ("self.fft_size_in", "self.fft_size_out"))):
+                    out.append(("range", "assert(%s);   // C03 range obligation of `%s`" % (cond, srctxt.replace("\n", " "))))
             # dropped statement: must not write tracked state; an early non-error return is kept with its condition
             # abstracted to an arbitrary boolean (error exits are outside the Ok-path contract)
             for n in rp.walk(st):
@@ -215,6 +358,10 @@ def slice_if(T, e, known, sigs):
                         lines.append("%s = %s;" % (place, rhs))
                         any_kept = True
                         continue
+            if "win_len" in known:
+                # range obligations of a dropped statement inside the branch, evaluated at its position (after the assignments above)
+                for (cond, srctxt) in range_obligations(st, known, {}, UNIT.get(T, ("self.fft_size_in", "self.fft_size_out"))):
+                    lines.append("assert(%s);" % cond)
             for (place, how, ln) in syn.collect_writes(st, sigs):
                 if place and place.startswith("self.") and place[5:] in tracked:
                     if place[5:] in STORAGE and not re.search(r"push|resize|truncate|clear|extend|insert|remove|pop|append|drain|assignment", how):
@@ -244,10 +391,31 @@ FUNCS = {
 }
 
 
+UNIT = {}      # T -> (spec text of the FftResampler's fft_size_in, fft_size_out) in terms of T's own fields
+
+
+def unit_sizes(T, body):
+    """The sizes the constructor hands to FftResampler::new, expressed through the struct fields that are initialised with the same locals."""
+    call = [n for n in rp.walk(body) if n[0] == "call" and "FftResampler" in rp.show(n[1]) and rp.show(n[1]).endswith("new") and len(n[2]) == 2]
+    lit = [n for n in rp.walk(body) if n[0] == "struct"]
+    if len(call) != 1 or not lit:
+        raise Undecided("constructor of %s: FftResampler::new call or struct literal not found" % T)
+    res = []
+    for a in call[0][2]:
+        a_txt = rp.show(rp.strip_paren(a))
+        cands = [f for f, v in lit[-1][2] if rp.show(rp.strip_paren(v)) == a_txt and f in TRACKED[T]]
+        if not cands:
+            raise Undecided("constructor of %s: no tracked field holds the unit size `%s`" % (T, a_txt))
+        res.append("self.%s" % (a_txt if a_txt in cands else cands[0]))
+    return tuple(res)
+
+
 def extract_all(src):
     sigs = syn.self_method_sigs(src)
     out = {}
     for T, fns in FUNCS.items():
+        sig, body, l0, _ = rp.find_fn(src, "new", ["impl<T> " + T + "<"])
+        UNIT[T] = unit_sizes(T, body)
         for fn in fns:
             impl = ["impl<T> " + T + "<"] if fn == "new" else ["Resampler", "for " + T + "<"]
             sig, body, l0, _ = rp.find_fn(src, fn, impl)
